@@ -11,12 +11,12 @@ CHECKS = {
             "DESIGN.md §4 C06"),
     "C01": ("exploration",
             "runtime differential monitor: simplifier input/output and every rewrite step (hook H2) judged by a big-integer reference evaluator + deep type check",
-            "Each simplifier execution of the workload (three entry points) is observed end to end and step by step through the H2 rewrite observer; values compared on all assignments (small scope, exhaustive depth<=2 terms) or 24 corner/correlated assignments (random rule-directed DAGs). Held on the executions listed in the evidence.",
-            "Equivalence by evaluation only (no proof); trusts refsem R1/R2; system-level application is covered by C11.",
+            "Each simplifier execution of the workload (three entry points) is observed end to end and step by step through the H2 rewrite observer; values compared on all assignments (small scope, exhaustive depth<=2 terms) or 24 corner/correlated assignments (random rule-directed DAGs). Held on the executions listed in the evidence. A fourth entry point, system::transform::simplify_expressions on generated transition systems, is judged function by function (inputs, state symbols and presence of every init/next function unchanged).",
+            "Equivalence by evaluation only (no proof); trusts refsem R1/R2; system-level application is covered by C11. (The system-level clause is also covered by C11 with lock-step simulation and the shipped designs.)",
             "DESIGN.md §4 C01"),
     "C12": ("exploration",
             "runtime monitor: shadow structural map over builder-call histories, periodic re-lookup of all references",
-            "Every builder call of long generated histories is checked against a shadow hash-consing map (same key same ref, new key fresh ref, normalisations), every earlier reference is looked up again every 1000 calls; literals come from 14 computation routes. Held on the histories executed.",
+            "Every builder call of long generated histories is checked against a shadow hash-consing map (same key same ref, new key fresh ref, normalisations), every earlier reference is looked up again every 1000 calls; literals come from 14 computation routes. Held on the histories executed. The generic extend() helper and the substitution API simple_transform_expr are treated as builders too: their results must be the references the builder methods give for the same structure.",
             "Keys are computed by the harness from the arguments it passed; context clones audited separately.",
             "DESIGN.md §4 C12"),
     "C13": ("exploration",
@@ -26,7 +26,7 @@ CHECKS = {
             "DESIGN.md §4 C13"),
     "C07": ("exploration",
             "runtime differential monitor: Simulator::get after every operation of generated histories vs reference simulator",
-            "Every value read from patronus::sim::Interpreter after each init/set/step/snapshot/restore operation of generated histories on generated systems is compared with the reference simulator R3 (built on the big-integer evaluator). Held on the histories executed.",
+            "Every value read from patronus::sim::Interpreter after each init/set/step/snapshot/restore operation of generated histories on generated systems is compared with the reference simulator R3 (built on the big-integer evaluator). Held on the histories executed. Three histories per shipped design inside the evaluator's operator domain.",
             "Inputs are set again after restore (interface/implementation differ on whether snapshots include inputs); widths <= 34 bits, no div/rem, no array equality (evaluator limits belong to C06).",
             "DESIGN.md §4 C07"),
     "C11": ("exploration",
@@ -51,7 +51,7 @@ CHECKS = {
             "DESIGN.md §4 C18"),
     "C09": ("exploration",
             "runtime differential monitor: serialize -> parse_str round trip, positional comparison by reference / reference evaluator / lock-step reference simulation",
-            "Every system the writer accepts (generated systems and the 116 corpus designs) is written and read back into the same context; inputs, states, outputs, bads and constraints are matched by position and type, functions compared by reference, else by the reference evaluator under positionally translated assignments (exhaustive <= 14 symbol bits) and a 20-step lock-step reference simulation; explicit distinct names are checked over a second cycle. Held on the systems executed.",
+            "Every system the writer accepts (generated systems and the 116 corpus designs) is written and read back into the same context; inputs, states, outputs, bads and constraints are matched by position and type, functions compared by reference, else by the reference evaluator under positionally translated assignments (exhaustive <= 14 symbol bits) and a 20-step lock-step reference simulation; explicit distinct names are checked over a second cycle. Held on the systems executed. Parsed systems are also cycled with their state names moved to yosys-style alias lines.",
             "Equivalence by evaluation; init expressions only read earlier states; writer-rejected systems are skipped.",
             "DESIGN.md §4 C09"),
     "C16": ("exploration",
@@ -66,32 +66,32 @@ CHECKS = {
             "DESIGN.md §4 C05"),
     "C14": ("exploration",
             "runtime round-trip monitor: writer output read back by parse_command/parse_expr/read_command, compared up to equivalence by the reference evaluator; model-value texts and their truncations",
-            "Every command the writer emits for the workload is read back and compared (kind, symbols, operands up to evaluation equivalence); generated model-value texts in solver spellings must be read as exactly their denotation and truncated/unbalanced variants must yield an error, never a wrong value or a panic. Held on the texts executed.",
+            "Every command the writer emits for the workload is read back and compared (kind, symbols, operands up to evaluation equivalence); generated model-value texts in solver spellings must be read as exactly their denotation and truncated/unbalanced variants must yield an error, never a wrong value or a panic. Held on the texts executed. Half of the streamed scripts declare a name again with another sort after the scope of its first declaration was popped.",
             "get-value responses are exercised through parse_expr here and through the live SolverContext::get_value path in C02/C03.",
             "DESIGN.md §4 C14"),
     "C02": ("exploration",
             "runtime monitor: bmc verdicts (library and tools/mc) against a strict reference solver on PATH, compared with explicit-state reachability and across solver profiles / modes / simplification",
-            "patronus::mc::bmc runs through the real SmtLibSolverCtx text protocol against refsolver (strict SMT-LIB monitor with the four solver capability profiles, z3 as decision back end) on generated systems; every verdict is compared with an independent explicit-state search and with the other configurations; the shipped tools/mc binary is run on written btor2 files incl. stateless systems. Held on the runs executed.",
+            "patronus::mc::bmc runs through the real SmtLibSolverCtx text protocol against refsolver (strict SMT-LIB monitor with the four solver capability profiles, z3 as decision back end) on generated systems; every verdict is compared with an independent explicit-state search and with the other configurations; the shipped tools/mc binary is run on written btor2 files incl. stateless systems. Held on the runs executed. The shipped btor2 designs are checked by the library in two configurations and by tools/mc on the file: verdict and step of the first failure must coincide, and none may contradict a bad state reached by constrained random simulation in the reference simulator.",
             "Oracle = explicit-state BFS over <= 2^8 states x 2^4 inputs; z3 4.8.12 decides satisfiability inside the reference solver.",
             "DESIGN.md §4 C02"),
     "C03": ("exploration",
             "runtime monitor: every Fail(witness) of bmc replayed in the reference simulator and in patronus' interpreter, under randomised solver models",
-            "Each failing generated system is solved 8 times with different solver profiles, seeds, model diversification and value spellings; every witness is validated field by field against the transition-system semantics (init, constraints, bad at the last step, exact failed list, names, completeness) and replayed differentially in patronus::sim::Interpreter. Held on the witnesses executed.",
+            "Each failing generated system is solved 8 times with different solver profiles, seeds, model diversification and value spellings; every witness is validated field by field against the transition-system semantics (init, constraints, bad at the last step, exact failed list, names, completeness) and replayed differentially in patronus::sim::Interpreter. Held on the witnesses executed. Systems without a reachable bad state get one bounded run as well: a witness reported there cannot be genuine and is validated too.",
             "Model variety comes from z3 seeds + explicit diversification in the reference solver.",
             "DESIGN.md §4 C03"),
     "C04": ("exploration",
             "offline checker over the recorded solver conversation (strict scope/sort checker) + evaluation of the recorded script under concrete reference executions",
-            "UnrollSmtEncoding is driven through both entry points into the reference solver; the event log must contain no rejected command, and the recorded script, loaded into the R6 evaluator and bound to concrete executions of the reference simulator, must give every state/input/constraint/bad step symbol the value that signal has in that step. Held on the scripts and executions listed.",
+            "UnrollSmtEncoding is driven through both entry points into the reference solver; the event log must contain no rejected command, and the recorded script, loaded into the R6 evaluator and bound to concrete executions of the reference simulator, must give every state/input/constraint/bad step symbol the value that signal has in that step. Held on the scripts and executions listed. The same two oracles run on the scripts of the shipped designs.",
             "12 (thorough: 60) random executions per script; strictness as in C05.",
             "DESIGN.md §4 C04"),
     "C10": ("exploration",
             "runtime monitor: pdr verdicts against explicit-state unbounded reachability under varied solver behaviours + frame-trace invariant hook (H3) checked on the explicit state space",
-            "patronus::mc::pdr runs through the real text protocol against the reference solver under rotating behaviours (3 profiles x generalisation on/off x minimal/full/random unsat cores x random models, yices profile without cores); verdicts must equal the full reachability fixpoint, be definite, stay under 10^5 queries; Fail witnesses are validated; after every main-loop iteration and before Success the frame trace handed out by hook H3 is checked against invariants every correct IC3 satisfies (over-approximation per frame; on Success: initiation, closure under the constrained transition relation, safety). Held on the runs executed.",
+            "patronus::mc::pdr runs through the real text protocol against the reference solver under rotating behaviours (3 profiles x generalisation on/off x minimal/full/random unsat cores x random models, yices profile without cores); verdicts must equal the full reachability fixpoint, be definite, stay under 10^5 queries; Fail witnesses are validated; after every main-loop iteration and before Success the frame trace handed out by hook H3 is checked against invariants every correct IC3 satisfies (over-approximation per frame; on Success: initiation, closure under the constrained transition relation, safety). Held on the runs executed. PDR also runs on the shipped bit-vector designs under a deterministic effort bound: Fail witnesses are validated, Success must not contradict simulation or a validated bounded counterexample, and the invariant handed over through H3 is sampled (reachable states outside every blocked cube, no bad state inside, sampled steps closed).",
             "Bit-vector systems with <= 2^8 states; z3 decides satisfiability inside the reference solver; feasibility filter as described in DESIGN.md.",
             "DESIGN.md §4 C10"),
     "C15": ("fault_enumeration",
             "fault injection at every response-bearing point of recorded BMC / PDR / SolverContext conversations x 14 fault kinds, each run in a child process with a /proc-based hang observer",
-            "For each job the fault-free conversation is measured, then every (position, fault kind) pair is replayed in a child process with the fault armed inside the reference solver; outcomes are classified: verdict despite fault, panic, crash, mangled or misattributed error message, hang (solver gone or cpu burning past 1000x the fault-free time). Exhaustive over positions x kinds for the jobs executed.",
+            "For each job the fault-free conversation is measured, then every (position, fault kind) pair is replayed in a child process with the fault armed inside the reference solver; outcomes are classified: verdict despite fault, panic, crash, mangled or misattributed error message, hang (solver gone or cpu burning past 1000x the fault-free time). Exhaustive over positions x kinds for the jobs executed. Three more fault kinds hit commands that bear no response (error and carry on, error and die, die), incl. early in >24 kB runs of such commands on a shipped design with the solver pipe shrunk to one page; and every satisfiability query of BMC/PDR jobs is answered Unknown in turn through an implementation of the public SolverContext trait (a definite verdict must then be the fault-free one, BMC failure depth included, and PDR frame traces must stay sound).",
             "Jobs are deterministic so that positions found in the fault-free run are hit again; 8 (thorough: 96) jobs.",
             "DESIGN.md §4 C15"),
     "C19": ("exploration",
